@@ -57,6 +57,7 @@ type FuncContract struct {
 	Invokes  string // name of a func-typed parameter this function calls exactly once (its contract is applied at the call)
 	Monitors []*Clause // monitor invariants: `monitor <mutex expr>: invariant e` (CallName = source of the mutex expression, Aux = its Expr)
 	NoPanicProp string // property the no-panic obligations are counted under (flags nopanic=Cxx; default C14)
+	Complete []*Clause // loops declared complete (no early exit)
 	ChanInvs []*Clause // channel invariants: `chan <local>: invariant <expr over elem>` (CallName = the channel variable)
 }
 
@@ -102,6 +103,8 @@ type Contracts struct {
 	Guarded []GuardDecl // map-typed struct fields that may only be accessed while a mutex field of the same struct is held
 	Sinks   []string // callee key prefixes of formatting / logging sinks (C15 secret-flow obligations)
 	Secrets []string // type strings whose printed form is secret
+	Encoders   []string // method names / function keys that serialise a secret value (C15)
+	MayEncode  []string // function key prefixes that are allowed to do so (the key store and database mirrors)
 	Files   []string
 	Trusted []string // human readable list of assumptions
 	Sources map[string]string // pkgpath -> file used
@@ -114,6 +117,7 @@ func newContracts() *Contracts {
 var reHeader = regexp.MustCompile(`^(func|extern|iface|field|paramfunc)\s+(.+?)\(([^)]*)\)\s*(?:\(([^)]*)\))?\s*$`)
 var reTag = regexp.MustCompile(`^\[([A-Za-z0-9_,]*)(?::([^\]]+))?\]\s*`)
 var reLoop = regexp.MustCompile(`^loop\s+(\d+)\s*:\s*invariant\s+(.*)$`)
+var reLoopComplete = regexp.MustCompile(`^loop\s+(\d+)\s*:\s*complete\s*(.*)$`)
 var reMonitor = regexp.MustCompile(`^monitor\s+([A-Za-z0-9_.]+)\s*:\s*invariant\s+(.*)$`)
 var reChan = regexp.MustCompile(`^chan\s+([A-Za-z0-9_]+)\s*:\s*invariant\s+(.*)$`)
 var reCall = regexp.MustCompile(`^call\s+([A-Za-z0-9_.$]+)#(\d+)\s*:\s*(assert|after)\s+(.*)$`)
@@ -342,6 +346,19 @@ func (cs *Contracts) parseLine(cur **FuncContract, t, path string, ln int, pkgPa
 		if *cur == nil {
 			return errf("loop outside function contract")
 		}
+		if mc := reLoopComplete.FindStringSubmatch(t); mc != nil {
+			// loop k: complete [tag]: the loop has no early exit: it is left only through its header (every element is visited)
+			k, _ := strconv.Atoi(mc[1])
+			rest = mc[2]
+			takeTag()
+			(*cur).Complete = append((*cur).Complete, &Clause{Kind: "complete", Prop: tagProp, Label: tagLabel, Src: "loop " + mc[1] + " visits every element: no break / return / goto leaves it early", Loop: k, File: path, Line: ln})
+			if tagProp != "" {
+				for _, p := range strings.Split(tagProp, ",") {
+					(*cur).Props[p] = true
+				}
+			}
+			return nil
+		}
 		m := reLoop.FindStringSubmatch(t)
 		if m == nil {
 			return errf("bad loop clause")
@@ -499,6 +516,14 @@ func (cs *Contracts) parseLine(cur **FuncContract, t, path string, ln int, pkgPa
 	case "sink":
 		for _, f := range strings.Fields(rest) {
 			cs.Sinks = append(cs.Sinks, f)
+		}
+	case "secretencoder":
+		for _, f := range strings.Fields(rest) {
+			cs.Encoders = append(cs.Encoders, f)
+		}
+	case "mayencode":
+		for _, f := range strings.Fields(rest) {
+			cs.MayEncode = append(cs.MayEncode, f)
 		}
 	case "secret":
 		for _, f := range strings.Fields(rest) {
